@@ -16,7 +16,7 @@ from .common import Out, drop_each, with_, REAL_ALL, STUB_ALL
 ID = "C12"
 TIERS = {"quick": {"n": 2500, "chunk": 60}, "thorough": {"n": 100000, "chunk": 300, "wall_cap": 3000}}
 RULE = (
-    "each scenario is a seeded history (3-8 ops, 1 in 8 up to 20) over {add_named_paths of 1-5 generated members, identical re-add, replace, remove, restart} on 2 group names; "
+    "each scenario is a seeded history (3-8 ops, 1 in 8 up to 20) over {add_named_paths of 1-5 generated members, identical re-add, replace, remove, restart; 15% of the adds first fail with the group-file write torn by ENOSPC after 0/50/90/100% and are retried} on 2 group names; "
     "members carry id/Id/ID/name/Name/NAME identities (some with a lower-precedence decoy key equal to a sibling's identity), outer/inner comments and newlines; after every op all lookups "
     "are compared with the model via a live and a fresh instance and the manifest is read from disk. Non-trivial = some group was re-added or replaced, or a lookup by identity was compared; "
     "distinct = distinct op-class sequences (op, group, change class, member count, identity spellings used)."
@@ -27,7 +27,7 @@ ASSUMPTIONS = [
     "groups are added from lists of strings; from_file/from_dir/from_json loaders are not explored",
 ]
 REAL = REAL_ALL
-STUB = STUB_ALL
+STUB = STUB_ALL + ["builtins.open during a torn add: the first write to a group.csvpaths file stores a prefix and raises ENOSPC (disk-full fault); the add is then retried"]
 
 GROUPS = ["g0", "g1"]
 KEYS = ["id", "Id", "ID", "name", "Name", "NAME"]
@@ -108,9 +108,14 @@ def generate(rng, i, tier):
             ms = gen_members(rng, f"t{tagc}")
             pool[g].append(ms)
             opsl.append({"op": "add", "group": g, "members": ms, "via": rng.choice(["list", "list", "list", "file"])})
+            if rng.random() < 0.15:
+                # the write of the group file dies part-way (disk full); the caller tries again at once
+                opsl[-1]["torn"] = rng.choice([0.0, 0.5, 0.9, 1.0])
         elif k == "readd":
             ms = rng.choice(pool[g][-2:])
             opsl.append({"op": "add", "group": g, "members": ms})
+            if rng.random() < 0.15:
+                opsl[-1]["torn"] = rng.choice([0.0, 0.5, 0.9, 1.0])
         elif k == "remove":
             opsl.append({"op": "remove", "group": g})
         else:
@@ -126,6 +131,10 @@ def reductions(sc):
             c = with_(sc)
             c["ops"][j]["via"] = "list"
             yield c
+        if op["op"] == "add" and op.get("torn") is not None:
+            c = with_(sc)
+            del c["ops"][j]["torn"]
+            yield c
         if op["op"] == "add" and len(op["members"]) > 1:
             for cand in drop_each(op["members"], 1):
                 c = with_(sc)
@@ -137,6 +146,59 @@ def reductions(sc):
 
 def _strip(lst):
     return None if lst is None else [s.strip() for s in lst]
+
+
+class _torn_group_write:
+    """Disk-full seam: while active, the first write to a file called group.csvpaths that is opened for writing
+    stores only `cut` of the text and raises ENOSPC."""
+
+    def __init__(self, cut):
+        self.cut = cut
+        self.state = {"fired": 0}
+
+    def __enter__(self):
+        import builtins
+        import errno
+
+        self.real = builtins.open
+        st, cut, real = self.state, self.cut, self.real
+
+        class Torn:
+            def __init__(self, f):
+                self.f = f
+
+            def write(self, data):
+                if st["fired"]:
+                    return self.f.write(data)
+                st["fired"] += 1
+                self.f.write(data[: int(len(data) * cut)])
+                self.f.flush()
+                raise OSError(errno.ENOSPC, "No space left on device (simulated)")
+
+            def __enter__(self):
+                self.f.__enter__()
+                return self
+
+            def __exit__(self, *a):
+                return self.f.__exit__(*a)
+
+            def __getattr__(self, name):
+                return getattr(self.f, name)
+
+        def opener(file, mode="r", *a, **kw):
+            f = real(file, mode, *a, **kw)
+            if not st["fired"] and isinstance(file, str) and os.path.basename(file) == "group.csvpaths" and ("w" in mode or "a" in mode) and "b" not in mode:
+                return Torn(f)
+            return f
+
+        builtins.open = opener
+        return st
+
+    def __exit__(self, *a):
+        import builtins
+
+        builtins.open = self.real
+        return False
 
 
 def _stored_text(texts):
@@ -247,6 +309,20 @@ def execute(sc):
                     texts = [t.strip() for t in texts]
                     out.probe("group added from a file")
                 else:
+                    if op.get("torn") is not None:
+                        with _torn_group_write(op["torn"]) as torn:
+                            try:
+                                with ops.quiet():
+                                    cs.paths_manager.add_named_paths(name=g, paths=texts)
+                                if torn["fired"]:
+                                    out.v("disk_error_swallowed", f"step {step}: writing the group file of {g} failed with ENOSPC but add_named_paths returned normally")
+                            except OSError:
+                                if not torn["fired"]:
+                                    raise
+                        if torn["fired"]:
+                            out.fault("torn_group_write")
+                            cls.append("torn-then-retried")
+                    # (the retry, or the only attempt)
                     with ops.quiet():
                         cs.paths_manager.add_named_paths(name=g, paths=texts)
                 stored = _stored_text(texts)
